@@ -11,6 +11,7 @@ import (
 	"encoding/hex"
 	"errors"
 	"fmt"
+	"os"
 	"sort"
 	"testing"
 
@@ -314,12 +315,21 @@ type sim struct {
 	mechLoop  int  // ... of which during the drawn operation sequence (the epilogue always adds some)
 	nonEmpty  bool // a root check passed on a non-empty set
 	shrinking bool // profile 3: currently in the delete-heavy phase
+	lastLine  string
+	repeats   int
+	poisoned  bool     // known-finding attribution: a commit ran while the partly filled tail page was evicted (see hazard())
+	trace     bool     // debugging aid (dump_test.go): record every operation with the full key
+	traceOps  []string // never logged, never influences the run
 }
 
 func (s *sim) stat(k string, d int64) { s.stats[k] += d }
 
 func (s *sim) violate(oracle, key, detail string) {
 	if s.viol == nil {
+		s.flushRepeats()
+		if key == "" && s.poisoned {
+			key = KnownTailPage
+		}
 		s.viol = &kernel.Violation{Property: "C17", Oracle: oracle, Key: key, Detail: detail, Step: s.step}
 		s.log.Add("VIOLATION %s: %s", oracle, detail)
 	}
@@ -371,6 +381,7 @@ func (s *sim) makeTrie() (failure string) {
 		s.v.closed = true
 	}
 	s.v = &view{d: s.d}
+	s.d.watchOn = false // MakeTrie arranges the deferred load of a partly filled tail page itself
 	var err error
 	p := guard(func() { s.trie, err = merkletrie.MakeTrie(s.v, s.mem) })
 	if p != "" {
@@ -387,6 +398,9 @@ func (s *sim) makeTrie() (failure string) {
 // handed back to the caller, which knows whether a fault was armed).
 func (s *sim) verifyRoot(oracle, ctx string) (ok bool, err error, panicked string) {
 	var got [32]byte
+	if len(s.cur.sorted) > 0 {
+		s.beforeCommit()
+	}
 	panicked = guard(func() {
 		h, e := s.trie.RootHash()
 		got, err = h, e
@@ -404,12 +418,44 @@ func (s *sim) verifyRoot(oracle, ctx string) (ok bool, err error, panicked strin
 		// RootHash of an EMPTY trie returns the zero digest without committing pending deletions
 		// (trie.go: root == null short-cut), so only a non-empty success is a commit point.
 		s.commitPoint()
+		s.rearm()
 		s.nonEmpty = true
 	}
 	if len(s.states) < 6 {
 		s.states = append(s.states, hex.EncodeToString(want[:10])+"/"+s.memString())
 	}
 	return true, nil, ""
+}
+
+// KnownTailPage is the stable key of a genuine defect of the unchanged tree (findings/C17-evict-tail-page):
+// a commit that leaves the next node id in the middle of a page stores that partly filled page; if
+// Evict then drops the page from the cache (small CachedNodesCount), later allocations re-create the
+// page in memory WITHOUT loading it (only MakeTrie arranges a deferred load), and the next commit
+// overwrites or deletes the stored page, losing its committed nodes. A run in which a commit ran in
+// exactly that situation is "poisoned": its store may be corrupt, and any violation it then shows is
+// attributed to this key. Attribution only; the oracles are unchanged.
+const KnownTailPage = "evict-drops-partial-tail-page"
+
+// rearm re-evaluates the hazard. Only called when the trie has no pending changes (right after a
+// successful commit or evict), when "the cache holds the tail page" cannot be faked by new allocations.
+func (s *sim) rearm() {
+	page, partial, cached, deferred := s.trie.VerifTailPage()
+	if partial && !cached && !deferred {
+		if !(s.d.watchOn && s.d.watchPg == page) {
+			s.d.watchOn, s.d.watchPg, s.d.watchHit = true, page, false
+			s.stat("known_tail_page_evicted", 1)
+		}
+	} else {
+		s.d.watchOn = false
+	}
+}
+
+// beforeCommit is called before anything that commits pending changes.
+func (s *sim) beforeCommit() {
+	if s.dirty && s.d.watchOn && !s.d.watchHit && !s.poisoned {
+		s.poisoned = true
+		s.stat("known_tail_page_hazard_runs", 1)
+	}
 }
 
 func (s *sim) commitPoint() {
@@ -568,6 +614,9 @@ func (s *sim) oneStep() {
 		desc += "]"
 	}
 
+	if s.trace {
+		s.traceOps = append(s.traceOps, fmt.Sprintf("%d\t%s\t%s\t%s", s.step, opNames[op], hex.EncodeToString(key), faultNames[fault]))
+	}
 	// ---- execute
 	wasDirty := s.dirty
 	s.d.arm(plan)
@@ -589,6 +638,7 @@ func (s *sim) oneStep() {
 	case opRoot:
 		// handled by verifyRoot below
 	case opCommit:
+		s.beforeCommit()
 		panicked = guard(func() { cstats, err = s.trie.Commit() })
 	case opTxCommit:
 		if plan.kind == fkStoreAll || plan.kind == fkStoreKth || plan.kind == fkStoreRoot {
@@ -596,6 +646,7 @@ func (s *sim) oneStep() {
 			s.d.fired++
 		}
 	case opEvictCommit:
+		s.beforeCommit()
 		panicked = guard(func() { evicted, err = s.trie.Evict(true) })
 	case opEvictNoCommit:
 		panicked = guard(func() { evicted, err = s.trie.Evict(false) })
@@ -671,6 +722,7 @@ func (s *sim) oneStep() {
 			outcome = fmt.Sprintf("ok n=%d", len(s.cur.sorted))
 		case opCommit:
 			s.commitPoint()
+			s.rearm()
 			s.mech++
 			s.commitStats(cstats)
 			outcome = "ok"
@@ -685,6 +737,7 @@ func (s *sim) oneStep() {
 			outcome = fmt.Sprintf("ok durable n=%d", len(s.durable))
 		case opEvictCommit:
 			s.commitPoint()
+			s.rearm()
 			s.mech++
 			if evicted > 0 {
 				s.stat("probe_evicted_nodes", int64(evicted))
@@ -695,6 +748,7 @@ func (s *sim) oneStep() {
 			if err != nil {
 				outcome = "pending-commits"
 			} else {
+				s.rearm()
 				s.mech++
 				if evicted > 0 {
 					s.stat("probe_evicted_nodes", int64(evicted))
@@ -741,11 +795,27 @@ func (s *sim) oneStep() {
 	s.abort(faultNames[fault] + " at step " + fmt.Sprint(s.step))
 }
 
+// note logs one step. Runs of identical lines (the all-zero "roothash" steps a shrunk tape is padded
+// with) are folded into one "repeated" line so that the log tail kept in a replay file stays readable.
 func (s *sim) note(line string) {
+	if line == s.lastLine {
+		s.repeats++
+		return
+	}
+	s.flushRepeats()
+	s.lastLine = line
 	s.log.Add("%d %s", s.step, line)
 	if len(s.ops) < 30 {
 		s.ops = append(s.ops, line)
 	}
+}
+
+func (s *sim) flushRepeats() {
+	if s.repeats > 0 {
+		s.log.Add("  (previous line repeated for %d more steps)", s.repeats)
+		s.repeats = 0
+	}
+	s.lastLine = ""
 }
 
 func (s *sim) commitStats(cs merkletrie.CommitStats) {
@@ -856,12 +926,15 @@ func (s *sim) run() {
 		return
 	}
 	var cerr error
+	s.beforeCommit()
 	if p := guard(func() { _, cerr = s.trie.Commit() }); p != "" || cerr != nil {
 		s.violate("unexpected-error", "", fmt.Sprintf("end of run: Commit failed without a fault: err=%v panic=%q", cerr, p))
 		return
 	}
+	s.commitPoint()
 	s.d.txCommit()
 	s.durable = append([][]byte(nil), s.committed...)
+	s.flushRepeats()
 	s.log.Add("final n=%d", len(s.cur.sorted))
 	s.abort("end-of-run crash")
 }
@@ -874,16 +947,21 @@ func (s *sim) sample() any {
 // state set above 20000 entries); it never influences a run.
 var emitted = map[string]bool{}
 
+func newSim(tape *kernel.Tape, tier string, keepLog bool) *sim {
+	s := &sim{tape: tape, log: kernel.NewLog(keepLog), stats: map[string]int64{}, d: newDisk()}
+	s.cfg, s.pool = drawConfig(tape, tier)
+	s.mem = merkletrie.MemoryConfig{NodesCountPerPage: s.cfg.NPP, CachedNodesCount: s.cfg.Cache, PageFillFactor: s.cfg.Fill, MaxChildrenPagesThreshold: s.cfg.Thresh}
+	s.cur = newKeyset(nil)
+	return s
+}
+
 func (Engine) Run(t *testing.T, prop, tier string, tape *kernel.Tape, keepLog bool) *kernel.RunResult {
 	res := &kernel.RunResult{}
 	if prop != "C17" {
 		res.HarnessErr = "triesim decides only C17, not " + prop
 		return res
 	}
-	s := &sim{tape: tape, log: kernel.NewLog(keepLog), stats: map[string]int64{}, d: newDisk()}
-	s.cfg, s.pool = drawConfig(tape, tier)
-	s.mem = merkletrie.MemoryConfig{NodesCountPerPage: s.cfg.NPP, CachedNodesCount: s.cfg.Cache, PageFillFactor: s.cfg.Fill, MaxChildrenPagesThreshold: s.cfg.Thresh}
-	s.cur = newKeyset(nil)
+	s := newSim(tape, tier, keepLog)
 	if p := guard(s.run); p != "" {
 		res.HarnessErr = "panic in harness: " + p
 	}
@@ -897,6 +975,16 @@ func (Engine) Run(t *testing.T, prop, tier string, tape *kernel.Tape, keepLog bo
 	res.Digest = s.log.Digest()
 	res.Stats = s.stats
 	res.Violation = s.viol
+	if s.viol != nil && os.Getenv("TRIESIM_SURVEY") != "" {
+		// analysis aid: keep going after a violation and only count its class
+		res.Violation = nil
+		res.Stats["survey_"+s.viol.Oracle+"_"+s.viol.Key] = 1
+		d := s.viol.Detail
+		if len(d) > 400 {
+			d = d[:400]
+		}
+		res.Known = append(res.Known, kernel.Violation{Property: "C17", Oracle: s.viol.Oracle, Key: s.viol.Key, Detail: fmt.Sprintf("%+v | %s", s.cfg, d), Step: s.viol.Step})
+	}
 	res.Tape = tape.Rec
 	res.LogLines = s.log.Lines
 	if s.harness != "" {
